@@ -3,7 +3,7 @@
    spelling, function names, both kinds of string literal with every escape form - is a token text the spelling relation of
    Proofs/LexSpell.v ranges over, and converts without error. *)
 From JP Require Import Base.Prelude Base.Json Model.Regex Model.Tokens Model.Lex Model.PyFloat Model.Parse Spec.Abnf Spec.Rfc9535Grammar Spec.StringLit Spec.Printable Spec.Printable
-  Proofs.StringProofs Proofs.LexString Proofs.LexNoCrash Proofs.LexInv Proofs.Requery Proofs.Reparse Proofs.ReparseF Proofs.LexSpell Proofs.AbnfDerive Proofs.LexComplete Proofs.LexCompleteF.
+  Proofs.StringProofs Proofs.LexString Proofs.LexNoCrash Proofs.LexInv Proofs.Requery Proofs.Reparse Proofs.ReparseF Proofs.LexSpell Proofs.AbnfDerive Proofs.LexComplete Proofs.NumMatch Proofs.LexCompleteF.
 From Coq Require Import ZifyBool ZifyN.
 
 (* ---- generic inversion ---- *)
